@@ -15,6 +15,7 @@
 
 static QByteArray text(int i, int len, bool fatal)
 {
+    if (len == 0) return QByteArray();   // an EMPTY message text (qFatal("%s", reason) with an empty reason): the record is a line of its own all the same
     QByteArray t = (fatal ? QByteArray("FATAL") : QByteArray("r") + QByteArray::number(i)) + ":";
     while (t.size() < len) t += 'x';
     return t;
